@@ -36,6 +36,20 @@ MUTS = [
  ("lib/lha_reader.c","w9 zero timestamp applied", "	if (header->timestamp != 0) {\n		return lha_arch_utime(path, header->timestamp);\n	} else {\n		return 1;\n	}", "	return lha_arch_utime(path, header->timestamp);", "C06", 1),
  ("lib/lha_arch_unix.c","w10 fchmod before fchown", "	if (unix_uid >= 0) {", "	if (unix_perms >= 0) { fchmod(fileno, unix_perms); }\n	if (unix_uid >= 0) {", "C06", 1),
  ("lib/lha_reader.c","w11 benign: flags tested through a local copy", "	if (LHA_FILE_HAVE_EXTRA(header, LHA_FILE_UNIX_UID_GID)) {\n		if (!lha_arch_chown", "	unsigned int fl_ = header->extra_flags;\n	if ((fl_ & LHA_FILE_UNIX_UID_GID) != 0) {\n		if (!lha_arch_chown", "C06", 0),
+ # ---- C16 window discipline
+ ("lib/lha_input_stream.c","x1 benign: i + 11 < len is exactly enough for the 12-byte marker", "for (i = 0; i + 12 < stream->leadin_len; ++i) {", "for (i = 0; i + 11 < stream->leadin_len; ++i) {", "C16", 0),
+ ("lib/lha_input_stream.c","x1b scan continues while i + 10 < len (the 12-byte marker compare reads one stale byte)", "for (i = 0; i + 12 < stream->leadin_len; ++i) {", "for (i = 0; i + 10 < stream->leadin_len; ++i) {", "C16", 1),
+ ("lib/lha_input_stream.c","x2 benign: i + 12 <= len is still enough for offsets up to 11", "for (i = 0; i + 12 < stream->leadin_len; ++i) {", "for (i = 0; i + 12 <= stream->leadin_len; ++i) {", "C16", 0),
+ ("lib/lha_input_stream.c","x3 round end drops one byte more than tested", "		empty_leadin(stream, i);\n		filepos += i;", "		empty_leadin(stream, i + 1);\n		filepos += i;", "C16", 1),
+ ("lib/lha_input_stream.c","x4 file position counts the buffer, not the tested bytes", "		filepos += i;", "		filepos += stream->leadin_len;", "C16", 1),
+ ("lib/lha_input_stream.c","x5 match drops the header's first byte too", "					empty_leadin(stream, i);\n					return 1;", "					empty_leadin(stream, i + 1);\n					return 1;", "C16", 1),
+ ("lib/lha_input_stream.c","x6 refill asks for the whole capacity", "		               LEADIN_BUFFER_LEN - stream->leadin_len);", "		               LEADIN_BUFFER_LEN);", "C16", 1),
+ ("lib/lha_input_stream.c","x7 replay copies the whole buffer", "		if (buf_len < stream->leadin_len) {\n			n = buf_len;\n		} else {\n			n = stream->leadin_len;\n		}", "		n = stream->leadin_len;", "C16", 1),
+ ("lib/lha_input_stream.c","x8 source read restarts at the start of buf", "		result = do_read(stream, (uint8_t *) buf + total_bytes,\n		                 buf_len - total_bytes);", "		result = do_read(stream, (uint8_t *) buf,\n		                 buf_len - total_bytes);", "C16", 1),
+ ("lib/lha_input_stream.c","x9 read-based skip subtracts the request, not the delivery", "			bytes -= (unsigned int) result;", "			bytes -= len;", "C16", 1),
+ ("lib/lha_input_stream.c","x10 seek from the start of the file", "fseek(handle, (long) bytes, SEEK_CUR)", "fseek(handle, (long) bytes, SEEK_SET)", "C16", 1),
+ ("lib/lha_input_stream.c","x11 fallback tolerates a short fread", "		if (result != (int) len) {\n			return 0;\n		}\n\n		bytes -= len;", "		if (result <= 0) {\n			return 0;\n		}\n\n		bytes -= len;", "C16", 1),
+ ("src/main.c","x12 any name starting with '-' is stdin", "if (!strcmp(filename, \"-\")) {", "if (filename[0] == '-') {", "C16", 1),
 ]
 only = sys.argv[1:]
 bad = 0
@@ -49,7 +63,7 @@ for f, name, old, new, prop, expect in MUTS:
             print("%-60s PATTERN %d" % (name, src.count(old))); bad += 1; continue
         open(d+"/t/"+f,"w").write(src.replace(old,new))
         # compile check
-        cc = subprocess.run(["cc","-fsyntax-only","-DHAVE_CONFIG_H","-I.","-I..","-Ipublic",os.path.basename(f)],cwd=d+"/t/lib",capture_output=True,text=True)
+        cc = subprocess.run(["cc","-fsyntax-only","-DHAVE_CONFIG_H","-I.","-I..","-Ipublic","-I../lib/public",os.path.basename(f)],cwd=d+"/t/"+os.path.dirname(f),capture_output=True,text=True)
         if cc.returncode: print(name, "DOES NOT COMPILE", cc.stderr[:300]); bad += 1; continue
         r = subprocess.run(["/verif/check",prop],env=dict(os.environ,LHSA_REPO=d+"/t",LHSA_EVIDENCE=d+"/ev"),capture_output=True,text=True)
         v = re.findall(r"violated: rule=(\S+) instance=(.{0,150})", r.stdout)
